@@ -23,12 +23,14 @@ from typing import Any
 from vlib import core
 from vlib import c14_run as cr
 from vlib import c14_aio as ca
+from vlib import c14_listener as cl
 
 ID = "C14"
 CLAIMED = True
 TITLE = "Closing releases the underlying resource at every cancellation point"
 REQUIRED_THEOREMS = ["C14_analysis_sound", "C14_stapled_both", "C14_endpoint_closes", "C14_tls_closes",
-                     "C14_wrap_failure_closes", "C14_second_close_prompt", "C14_tcpclient_closes_partial"]
+                     "C14_wrap_failure_closes", "C14_second_close_prompt", "C14_tcpclient_closes_partial",
+                     "C14_listener_close_releases"]
 LEVEL_TEXT = (
     "Machine-checked proof (Lean 4) that in the structured control-flow models of the close paths (try / except "
     "BaseException / finally / move_on_after / aclose_forcefully, every await an injection point) the wrapped "
@@ -77,6 +79,8 @@ _aux: dict[str, Any] = {}
 
 
 def run_real(case: dict) -> list[str]:
+    if case["path"] == "lsn":
+        return cl.run_case(case)[0]
     lines, aux = (ca.run_case if case["path"] == "aio" else cr.run_case)(case)
     _aux[core.case_digest(case)] = aux
     return lines
@@ -87,6 +91,8 @@ def _field(real: list[str], key: str) -> str:
 
 
 def oracle(case: dict, real: list[str]) -> str | None:
+    if case["path"] == "lsn":
+        return cl.oracle(case, real)
     if case["path"] == "aio":
         return ca.oracle(case, real)
     for ln in real:
@@ -153,6 +159,8 @@ def _oracle_connect(case: dict, real: list[str], outcome: str) -> str | None:
 
 
 def nontrivial(case: dict, real: list[str]) -> str | None:
+    if case["path"] == "lsn":
+        return cl.nontrivial(case, real)
     if case["path"] == "aio":
         return ca.nontrivial(case, real)
     p = case.get("params") or {}
@@ -184,6 +192,9 @@ def nontrivial(case: dict, real: list[str]) -> str | None:
 
 
 def shrink(case: dict):
+    if case["path"] == "lsn":
+        yield from cl.shrink(case)
+        return
     if case["path"] == "aio":
         yield from ca.shrink(case)
         return
@@ -209,6 +220,8 @@ def shrink(case: dict):
 
 
 def known_key(case: dict, real: list[str], why: str) -> str:
+    if case["path"] == "lsn":
+        return cl.known_key(case, real, why)
     if case["path"] == "aio":
         return ca.known_key(case, real, why)
     p = case.get("params") or {}
@@ -265,6 +278,8 @@ def decisions(case: dict, real: list[str], aux: dict) -> list[str] | None:
 
 
 def model_input(case: dict, real: list[str]):
+    if case["path"] == "lsn":
+        return cl.model_input(case, real)
     aux = _aux.get(core.case_digest(case))
     if aux is None or case["path"] in ("srvclient", "sockadapter", "udpclient"):
         return None
@@ -400,7 +415,7 @@ def configurations(tier: str) -> list[tuple[str, dict]]:
 
 
 def corpus() -> list[dict]:
-    return [
+    return cl.corpus() + [
         {"path": "tls", "params": {"sc": True, "peer": "silent", "inner": {"steps": 1}, "shutdown_timeout": 5}, "step": 2},
         {"path": "stapled", "params": {"send": {"steps": 1, "err": True}, "recv": {"steps": 1}}, "step": None},
         {"path": "tlswrap", "params": {"hs": "garbage", "inner": {"steps": 1}}, "step": None},
@@ -424,6 +439,10 @@ def corpus() -> list[dict]:
 
 
 def generate(rng, tier: str, boost: int):
+    # the listener machine (Model/Listener.lean): random histories of accept / close events on the real ListenerSocketAdapter
+    lrng = core.sub_rng(rng.getrandbits(32), "c14-lsn")
+    for _ in range((400 if tier == "quick" else 6000) * boost):
+        yield cl.gen_case(lrng)
     cfgs = configurations(tier) + [("aio", params) for params in ca.configurations(tier)]
     rng.shuffle(cfgs)            # (the set is the same for every seed; only the order depends on it)
     for path, params in cfgs:
@@ -443,7 +462,7 @@ def generate(rng, tier: str, boost: int):
 
 
 def extra_coverage(stats) -> dict:
-    return {"paths": "stapled, endpoint, tls aclose, tls wrap, tcpclient are compared with the Lean model; srvclient "
+    return {"paths": "stapled, endpoint, tls aclose, tls wrap, tcpclient and lsn (the TCP listener machine) are compared with the Lean model; srvclient "
                      "(server-side client inside AsyncTCPNetworkServer), sockadapter, tcpconnect and aio (real sockets of the "
                      "asyncio backend) run against the oracle only",
             "exhaustive": "cancellation after every task step 1..N of every listed configuration"}
